@@ -15,3 +15,53 @@ package types
 // ---- a consensus state reports the client type of its own light client (C13: exported genesis validates) ----
 // verif:func (*ConsensusState).ClientType
 //@ ensures [type-agree] result == (&ClientState{}).ClientType()
+
+// ======================= C08: EVM storage proofs bind contract, slot, value, root and height ======================
+// verif:import bytes bytes
+// verif:import common github.com/ethereum/go-ethereum/common
+// verif:import crypto github.com/ethereum/go-ethereum/crypto
+// verif:import rlp github.com/ethereum/go-ethereum/rlp
+// verif:import big math/big
+
+// the slot is keccak(path key of exactly (src, dst, seq) ++ uint256(208)): commitments and acks use their own family
+// verif:func (ProofKeyConstructor).GetPacketCommitmentProofKey
+//@ ensures [slot-of-the-commitment] result == crypto.Keccak256Hash(host.PacketCommitmentKey(k.srcChain, k.dstChain, k.sequence), common.LeftPadBytes(big.NewInt(208).Bytes(), 32)).Bytes()
+// verif:func (ProofKeyConstructor).GetAckProofKey
+//@ ensures [slot-of-the-ack] result == crypto.Keccak256Hash(host.PacketAcknowledgementKey(k.srcChain, k.dstChain, k.sequence), common.LeftPadBytes(big.NewInt(208).Bytes(), 32)).Bytes()
+
+// a proof is accepted only against a stored height that is not above the head
+// verif:func produceVerificationArgs
+//@ ensures [not-above-head] err == nil ==> !cs.Header.Height.LT(height)
+//@ ensures [block-not-above-head] err == nil ==> height.GetRevisionHeight() <= cs.Header.Height.RevisionHeight
+//@ ensures [stored-height] err == nil ==> kvhas(store, host.ConsensusStateKey(height)) && consensusState == first(GetConsensusState(store, cdc, height))
+
+// the proven storage value is compared as a left-padded word: only values of at least 32 bytes can match (the
+// byte-level content of the padding is checked by the bounded stand-in evm-padded-value, not proved)
+// verif:func checkProofResult
+//@ loop 1 invariant len(s) + len(tempBytes) == i
+//@ ensures [word-sized] result ==> len(value) >= 32
+
+// accepted only if: the proof is for the configured contract; the account proof is checked under the state root of
+// the given consensus state at keccak(address); the proven account value is the RLP of (nonce, balance, storage
+// hash, code hash) of the proof; there is exactly one storage proof, for the expected slot; it is checked under that
+// same storage hash at keccak(slot); and the proven value, RLP-decoded and left-padded, is the expected 32 bytes
+// verif:func verifyMerkleProof
+//@ callsite VerifyProof [roots-and-keys] (ncalls("VerifyProof") == 0 ==> rootHash == common.BytesToHash(consensusState.Root) && key == crypto.Keccak256(common.FromHex(bscProof.Address))) && (ncalls("VerifyProof") == 1 ==> rootHash == common.HexToHash(bscProof.StorageHash) && len(bscProof.StorageProof) == 1 && key == crypto.Keccak256(common.HexToHash(bscProof.StorageProof[0].Key).Bytes()))
+//@ callsite EncodeToBytes [account-of-the-proof] as(val, *ProofAccount).Storage == common.HexToHash(bscProof.StorageHash) && as(val, *ProofAccount).Codehash == common.HexToHash(bscProof.CodeHash) && as(val, *ProofAccount).Nonce == common.HexToHash(bscProof.Nonce).Big() && as(val, *ProofAccount).Balance == common.HexToHash(bscProof.Balance).Big()
+//@ callsite checkProofResult [proven-value-is-the-commitment] ncalls("VerifyProof") == 2 && dollar_result == callres("VerifyProof", 0, 2) && value == commitment
+//@ ensures [configured-contract] result == nil ==> bytes.Equal(common.FromHex(bscProof.Address), contractAddr)
+//@ ensures [both-proofs-checked] result == nil ==> ncalls("VerifyProof") == 2 && callsok("VerifyProof") && ncalls("checkProofResult") == 1 && callres("checkProofResult", 0) == true
+//@ ensures [account-value-is-the-rlp] result == nil ==> ncalls("EncodeToBytes") == 1 && bytes.Equal(callres("EncodeToBytes", 0), callres("VerifyProof", 0, 1))
+//@ ensures [expected-slot] result == nil ==> len(bscProof.StorageProof) == 1 && bytes.Equal(common.HexToHash(bscProof.StorageProof[0].Key).Bytes(), proofKey)
+
+// verif:func (ClientState).VerifyPacketCommitment
+//@ callsite produceVerificationArgs [own-client-and-height] dollar_cs == m && dollar_height == height && dollar_store == store && dollar_proof == proof
+//@ callsite verifyMerkleProof [bound-to-contract-slot-value-root] bscProof == callres("produceVerificationArgs", 0) && consensusState == callres("produceVerificationArgs", 1) && contractAddr == m.ContractAddress && dollar_commitment == commitment && proofKey == NewProofKeyConstructor(srcChain, dstChain, sequence).GetPacketCommitmentProofKey()
+//@ ensures [guards] result == nil ==> ncalls("produceVerificationArgs") == 1 && callsok("produceVerificationArgs") && ncalls("verifyMerkleProof") == 1 && callsok("verifyMerkleProof")
+//@ ensures [confirmations] result == nil ==> height.GetRevisionHeight() <= m.Header.Height.RevisionHeight && m.Header.Height.RevisionHeight - height.GetRevisionHeight() >= m.GetDelayBlock()
+
+// verif:func (ClientState).VerifyPacketAcknowledgement
+//@ callsite produceVerificationArgs [own-client-and-height] dollar_cs == m && dollar_height == height && dollar_store == store && dollar_proof == proof
+//@ callsite verifyMerkleProof [bound-to-contract-slot-value-root] bscProof == callres("produceVerificationArgs", 0) && consensusState == callres("produceVerificationArgs", 1) && contractAddr == m.ContractAddress && commitment == ackBytes && proofKey == NewProofKeyConstructor(srcChain, dstChain, sequence).GetAckProofKey()
+//@ ensures [guards] result == nil ==> ncalls("produceVerificationArgs") == 1 && callsok("produceVerificationArgs") && ncalls("verifyMerkleProof") == 1 && callsok("verifyMerkleProof")
+//@ ensures [confirmations] result == nil ==> height.GetRevisionHeight() <= m.Header.Height.RevisionHeight && m.Header.Height.RevisionHeight - height.GetRevisionHeight() >= m.GetDelayBlock()
